@@ -135,19 +135,24 @@ FormerMates(pre, x) == BSet(pre[BlockOf(pre, x)])
 Anchor(o, p, pre, S, x) == \A y \in (NameSet(pre) \ S) \ FormerMates(pre, x) : Before(o, y, x) <=> Before(p, y, x)
 Contig(p, B) == \A i, j \in 1..Len(p) : (p[i] \in B /\ p[j] \in B) => \A k \in i..j : p[k] \in B
 \* o: old name order, p: candidate new order, P: partition of the result
-OrderOK(pre, kind, S, P, p) ==
+OrderRest(pre, kind, S, p) ==
     LET o == Flat(pre)
         involved == S \cap NameSet(pre)
-    IN /\ \A B \in P : Contig(p, B) /\ Restr(p, B) = Restr(o, B)
-       /\ Restr(p, NameSet(pre) \ involved) = Restr(o, SeqSet(p) \ involved)
+    IN /\ Restr(p, NameSet(pre) \ involved) = Restr(o, SeqSet(p) \ involved)
        /\ Restr(p, involved) = Restr(o, involved \cap SeqSet(p))
        /\ CASE kind = "join" -> \E x \in involved : Anchor(o, p, pre, involved, x)
             [] kind = "unjoin" -> \A x \in involved : Anchor(o, p, pre, involved, x)
             [] OTHER -> TRUE
+OrderOK(pre, kind, S, P, p) ==
+    /\ \A B \in P : Contig(p, B) /\ Restr(p, B) = Restr(Flat(pre), B)
+    /\ OrderRest(pre, kind, S, p)
 
+\* the admissible set, enumerated: every arrangement of the result blocks (each in the old
+\* internal order) that satisfies the remaining clauses
 PermsOf(K) == {f \in [1..Cardinality(K) -> K] : \A i, j \in 1..Cardinality(K) : i # j => f[i] # f[j]}
-PermTab == [K \in SUBSET Vars |-> PermsOf(K)]
-AdmOrders(pre, kind, S, P) == {p \in PermTab[UNION P] : OrderOK(pre, kind, S, P, p)}
+RECURSIVE FlatSets(_, _)
+FlatSets(f, o) == IF f = <<>> THEN <<>> ELSE Restr(o, f[1]) \o FlatSets(Tail(f), o)
+AdmOrders(pre, kind, S, P) == {p \in {FlatSets(f, Flat(pre)) : f \in PermsOf(P)} : OrderRest(pre, kind, S, p)}
 
 Nonempty(PP) == PP \ {{}}
 KeepVarLevel(pre, post) == \A x \in NameSet(post) : /\ CovOf(post, x, x) = CovOf(pre, x, x)
@@ -263,9 +268,17 @@ DoConcat == \E two \in BOOLEAN, L \in ConcatLevels, how \in {"add_dist", "radd_d
 DoConcatRefused == /\ Missing(rvs) # {}
                    /\ Step([op |-> "concat_badlevel", x |-> MinOf(Missing(rvs))], rvs, ren, {Flat(rvs)}, {})
 
-Next == \/ ("join" \in Ops /\ DoJoin) \/ ("unjoin" \in Ops /\ DoUnjoin) \/ ("select" \in Ops /\ DoSelect)
-        \/ ("slice" \in Ops /\ DoSlice) \/ ("subs" \in Ops /\ DoSubsParam) \/ ("subs" \in Ops /\ DoSubsName)
-        \/ ("concat" \in Ops /\ DoConcat) \/ ("concat" \in Ops /\ DoConcatRefused)
+\* (guard first: in history mode nothing is computed for histories that are already complete)
+Go(k) == k \in Ops /\ (Track => Len(hist) < MaxOps)
+Join == Go("join") /\ DoJoin
+Unjoin == Go("unjoin") /\ DoUnjoin
+Select == Go("select") /\ DoSelect
+Slice == Go("slice") /\ DoSlice
+SubsParam == Go("subs") /\ DoSubsParam
+SubsName == Go("subs") /\ DoSubsName
+Concat == Go("concat") /\ DoConcat
+ConcatRefused == Go("concat") /\ DoConcatRefused
+Next == Join \/ Unjoin \/ Select \/ Slice \/ SubsParam \/ SubsName \/ Concat \/ ConcatRefused
 
 \* initial configurations: all compositions of 1..N into <= 3 blocks, levels by pattern
 Compositions == {c \in [1..3 -> 0..N] : /\ c[1] + c[2] + c[3] = N /\ c[1] >= 1
